@@ -8,7 +8,9 @@ executes on the real container and on the model.
 """
 from .listmodel import KEYS, MC
 
-CLASS_NAMES = ["OrderedMultiDict", "PVLModule", "PVLGroup", "PVLObject"]
+CLASS_NAMES = ["OrderedMultiDict", "PVLModule", "PVLGroup", "PVLObject",
+               "PVLModule", "PVLGroup", "PVLObject",
+               "MyModule", "MyGroup", "MyObject"]
 
 ALL_OPS = ["append", "setitem", "delitem", "pop0", "popk", "popkd", "popall",
            "popalld", "popitem", "setdefault", "setdefault0", "discard",
@@ -47,7 +49,7 @@ class HistGen:
         self.m = machine
         self.vcount = 0
         self.idcount = 0
-        self.nkeys = rng.choice([1, 2, 2, 3, 4])
+        self.nkeys = rng.choice([1, 2, 2, 3, 4, 5])
         self.classes = classes or CLASS_NAMES
         self.pnest = rng.choice([0.0, 0.1, 0.25])
         self.pref = rng.choice([0.0, 0.05, 0.15])
@@ -71,13 +73,18 @@ class HistGen:
 
     def unique_int(self):
         # mostly unique (every read attributable to one write), but equal
-        # values under one key are a situation of their own
+        # values under one key are a situation of their own, and so are
+        # values that are false in a boolean context
+        if self.rng.random() < self.p_falsy:
+            return self.rng.choice([0, {"none": 1}, {"s": ""}, False,
+                                    {"f": 0.0}])
         if self.vcount and self.rng.random() < self.p_repeat:
             return self.rng.randint(1, self.vcount)
         self.vcount += 1
         return self.vcount
 
     p_repeat = 0.12
+    p_falsy = 0.06
 
     def key(self, mc=None, want_present=None):
         r = self.rng
